@@ -1,5 +1,5 @@
 #!/venv/bin/python
-"""selftest.py determinism [props...] [--n N]  /  selftest.py mutants [ids...]
+"""selftest.py determinism [props...] [--n N]  /  selftest.py mutants [ids...] [--jobs J]
 
 determinism: every sampled run index is executed in three different fresh interpreters
 (different PYTHONHASHSEED, different grouping/order, different process counts) and all
@@ -77,35 +77,41 @@ def run_check_on(src: str, prop: str, runs: int | None = None) -> tuple[int, str
     return p.returncode, p.stdout[-3000:] + p.stderr[-1500:]
 
 
-def mutants(ids: list[str]) -> int:
+def _one_mutant(d: str) -> tuple:
     root = os.path.join(HERE, "seeded")
-    rows = []
+    meta_p = os.path.join(root, d, "meta.json")
+    patch = os.path.join(root, d, "patch.diff")
+    meta = json.load(open(meta_p))
+    props = meta.get("properties") or [meta["property"]]
+    tmp = tempfile.mkdtemp(prefix="verif_mut_")
+    try:
+        shutil.copytree("/repo/src", os.path.join(tmp, "src"))
+        r = subprocess.run(["patch", "-p1", "-d", tmp, "-i", patch], capture_output=True, text=True)
+        if r.returncode != 0:
+            return (d, props, "PATCH-FAILED", r.stdout[-300:])
+        caught = []
+        for prop in props:
+            rc, out = run_check_on(os.path.join(tmp, "src"), prop)
+            rules = sorted(set(re.findall(r"^\s+(C\d+\.\w+) \[", out, re.M)))
+            caught.append((prop, rc, rules))
+        return (d, props, "CAUGHT" if any(rc == 1 for _, rc, _ in caught) else "MISSED", caught)
+    finally:
+        shutil.rmtree(tmp, ignore_errors=True)
+
+
+def mutants(ids: list[str], jobs: int = 1) -> int:
+    root = os.path.join(HERE, "seeded")
+    names = []
     for d in sorted(os.listdir(root)) if os.path.isdir(root) else []:
         if ids and d not in ids:
             continue
-        meta_p = os.path.join(root, d, "meta.json")
-        patch = os.path.join(root, d, "patch.diff")
-        if not (os.path.exists(meta_p) and os.path.exists(patch)):
-            continue
-        meta = json.load(open(meta_p))
-        props = meta.get("properties") or [meta["property"]]
-        tmp = tempfile.mkdtemp(prefix="verif_mut_")
-        try:
-            shutil.copytree("/repo/src", os.path.join(tmp, "src"))
-            r = subprocess.run(["patch", "-p1", "-d", tmp, "-i", patch], capture_output=True, text=True)
-            if r.returncode != 0:
-                rows.append((d, props, "PATCH-FAILED", r.stdout[-300:]))
-                continue
-            caught = []
-            for prop in props:
-                rc, out = run_check_on(os.path.join(tmp, "src"), prop)
-                rules = sorted(set(re.findall(r"^\s+(C\d+\.\w+) \[", out, re.M)))
-                caught.append((prop, rc, rules))
-            rows.append((d, props, "CAUGHT" if any(rc == 1 for _, rc, _ in caught) else "MISSED", caught))
-        finally:
-            shutil.rmtree(tmp, ignore_errors=True)
-    for row in rows:
-        print(row)
+        if os.path.exists(os.path.join(root, d, "meta.json")) and os.path.exists(os.path.join(root, d, "patch.diff")):
+            names.append(d)
+    with ThreadPoolExecutor(max_workers=max(1, jobs)) as ex:
+        rows = []
+        for row in ex.map(_one_mutant, names):
+            print(row, flush=True)
+            rows.append(row)
     return 0 if all(r[2] == "CAUGHT" for r in rows) else 1
 
 
@@ -123,4 +129,9 @@ if __name__ == "__main__":
     if mode == "determinism":
         sys.exit(determinism(rest or ALL, n))
     elif mode == "mutants":
-        sys.exit(mutants(rest))
+        jobs = 1
+        if "--jobs" in rest:
+            i = rest.index("--jobs")
+            jobs = int(rest[i + 1])
+            del rest[i : i + 2]
+        sys.exit(mutants(rest, jobs))
